@@ -88,6 +88,10 @@ namespace sim {
 		asio::high_resolution_timer m_forward_timer;
 
 		chrono::high_resolution_clock::time_point m_last_forward;
+
+		// set while a packet is being handed to the next hop. The next hop may
+		// send a packet back into this queue from inside its incoming_packet()
+		bool m_forwarding;
 	};
 
 }
